@@ -15,7 +15,7 @@ Decides the structural discipline, not behaviour under schedules:
     declared after queue and thread vector
  P4 submit takes the future before moving the task into the queue, pushes once, returns that future
 """
-from ..flow import guards_of, path_search, describe_path
+from ..flow import guards_of, path_search, describe_path, in_cfg_loop, exit_reachable_assuming
 from ..monitor import lockset
 
 EXPLANATION = (
@@ -222,7 +222,7 @@ def queue_rules(fb, R):
                 nfns.append(normalized(fb, fn))
             except Exception:  # noqa: BLE001 - fall back to the body as written
                 nfns.append(fn)
-        _queue_shapes(fb, R, rec, nfns, F, cons, prod)
+        _queue_shapes(fb, R, rec, nfns, F, cons, prod, all_raw=fns)
 
 
 def _held_fn(fn, F):
@@ -359,7 +359,7 @@ def _is_size_read(fn, nid, F):
 def _bounded_wait_loop(fb, fn, F, prod):
     waits = [(c, timed) for (c, cv, timed, lockd, g, pred) in _wait_sites(fb, fn, F) if cv == prod]
     for (c, timed) in waits:
-        inloop = [l for l in fn.loops if fn.in_range(c['id'], l['b'], l['e'])]
+        inloop = in_cfg_loop(fn, c['id'])
         gs = guards_of(fn, c['id'])
         maxg = any(sense and (fn.sn(cn) or {}).get('k') == 'member' and fn.sn(cn)['name'] == F['max'] for (cn, sense, _b) in gs)
         loopcond = False
@@ -379,7 +379,7 @@ def _bounded_wait_loop(fb, fn, F, prod):
     return False
 
 
-def _queue_shapes(fb, R, rec, fns, F, cons, prod):
+def _queue_shapes(fb, R, rec, fns, F, cons, prod, all_raw=()):
     byname = {}
     for f in fns:
         byname.setdefault(f.name, []).append(f)
@@ -468,7 +468,7 @@ def _queue_shapes(fb, R, rec, fns, F, cons, prod):
                 ok = any(_reads_flag_negated(pf, d, F) for d in ds) and any(_is_not_empty(pf, d, F) for d in ds)
             elif g is None and not timed and len(c.get('args', [])) == 1:
                 # bare wait(lock): equivalent to a predicate wait iff it sits in a loop that re-tests `in_use && queue.empty()`
-                inloop = [l for l in fn.loops if fn.in_range(c['id'], l['b'], l['e'])]
+                inloop = in_cfg_loop(fn, c['id'])
                 gs = guards_of(fn, c['id'])
                 has_flag = any(sense and _reads_flag(fn, cn, F) for (cn, sense, _b) in gs)
                 has_empty = any(sense and (fn.sn(cn) or {}).get('q') == 'std::queue::empty' and _recv_field(fn, fn.sn(cn)) == F['queue']
@@ -516,15 +516,24 @@ def _queue_shapes(fb, R, rec, fns, F, cons, prod):
             R.check(w2 is None, 'Q7-push-inserts', '%s#once' % fn.q, fn.loc(i['id']), 'push(): an element can be inserted twice on one path')
         # bounded loop: a timed wait on the producers' variable inside a loop that re-tests the queue size against max
         ok = _bounded_wait_loop(fb, fn, F, prod)
-        if not ok and getattr(fn, 'base', None) is not None:
-            ok = _bounded_wait_loop(fb, fn.base, F, prod)  # the body as written (before helper inlining)
+        raw = getattr(fn, 'base', None) or fn
+        if not ok:
+            ok = _bounded_wait_loop(fb, raw, F, prod)  # the body as written (before helper inlining)
+        if not ok:
+            # the wait loop may live in a helper of the class that push calls before it inserts
+            for h in all_raw:
+                if h.usr == raw.usr or not _bounded_wait_loop(fb, h, F, prod):
+                    continue
+                hc = [n for n in raw.all_nodes() if n.get('k') == 'call' and n.get('u') == h.usr and (raw.sn(n.get('recv')) or {}).get('k') == 'this']
+                rins = _qcalls(raw, F, ('push', 'emplace'))
+                if hc and rins and all(any(raw.elem_dominates(c_['id'], i_['id']) for c_ in hc) for i_ in rins):
+                    ok = True
         R.check(ok, 'Q7-bounded-wait-loop', '%s#full-loop' % fn.q, fn.site,
                 'push(): the full-queue wait must be a timed wait inside a loop that re-tests size() against %s, guarded by %s != 0'
                 % (F['max'], F['max']))
         # insertion is after the loop, not inside
         for i in ins:
-            inl = [l for l in fn.loops if fn.in_range(i['id'], l['b'], l['e'])]
-            R.check(not inl, 'Q7-push-inserts', '%s#not-in-loop' % fn.q, fn.loc(i['id']), 'push(): insertion happens inside a loop')
+            R.check(not in_cfg_loop(fn, i['id']), 'Q7-push-inserts', '%s#not-in-loop' % fn.q, fn.loc(i['id']), 'push(): insertion happens inside a loop')
     if not byname.get('push'):
         R.broken('%s: push() not found' % rec.full)
 
@@ -603,21 +612,14 @@ def pool_rules(fb, R):
 
     # P1 worker_thread: every return is guarded by `task && task()`; loop otherwise infinite
     for fn in fb.fns(P + '::worker_thread'):
-        rets = [n for n in fn.all_nodes() if n.get('k') == 'return']
-        ok = bool(rets)
-        for r in rets:
-            gs = guards_of(fn, r['id'])
-            good = False
-            for (c, sense, _b) in gs:
-                x = fn.sn(_named_value(fn, c))
-                if sense and x is not None and x.get('k') == 'call' and x.get('q') == FW + '::operator()':
-                    good = True
-            ok = ok and good
-        # exit reachable only through those returns
-        retids = {r['id'] for r in rets}
-        w = path_search(fn, fn.entry, exit_t, lambda e: e in retids, from_block_start=True)
-        R.check(ok and w is None, 'P1-worker-exit-only-on-stop-task', fn.q, fn.site,
-                'worker_thread must leave its loop only when a task returned true (%s)' % describe_path(fn, w))
+        # the worker can leave its loop only when a task returned true: assuming every task() returns false (and, separately,
+        # that every popped wrapper is empty) the exit must be unreachable, whatever the loop form (return, break, flag)
+        r1 = exit_reachable_assuming(fn, {FW + '::operator()': False})
+        r2 = exit_reachable_assuming(fn, {FW + '::(conv)': False, FW + '::operator bool': False})
+        r3 = exit_reachable_assuming(fn, {FW + '::operator()': True, FW + '::(conv)': True, FW + '::operator bool': True})
+        R.check((not r1) and (not r2) and r3, 'P1-worker-exit-only-on-stop-task', fn.q, fn.site,
+                'worker_thread must leave its loop exactly when a task returned true (exit reachable although every task returns false: %s; '
+                'although the popped wrapper is empty: %s; stop task ends the thread: %s)' % (r1, r2, r3))
         # each iteration pops one task and calls it at most once
         calls = [n for n in fn.all_nodes() if n.get('k') == 'call' and n.get('q') == FW + '::operator()']
         pops = [n for n in fn.all_nodes() if n.get('k') == 'call' and n.get('q') == Q + '::wait_and_pop']
@@ -658,18 +660,24 @@ def pool_rules(fb, R):
         ok = len(pushes) == 1
         if ok:
             p = pushes[0]
-            inl = [l for l in fn.loops if fn.in_range(p['id'], l['b'], l['e'])]
-            ok = len(inl) == 1
-            # loop bound is m_num_threads, counter from 0 step 1
+            ok = in_cfg_loop(fn, p['id'])
+            # loop bound is m_num_threads, counter from 0 step 1 (for or while form)
             gs = guards_of(fn, p['id'])
             bound = False
             for (c, sense, _b) in gs:
                 x = fn.sn(c)
-                if sense and x is not None and x.get('k') == 'binop' and x['op'] in ('<', '!='):
-                    r = fn.sn(x['rhs'])
-                    lv = fn.sn(x['lhs'])
+                if x is None or x.get('k') != 'binop':
+                    continue
+                pairs = []
+                if sense and x['op'] in ('<', '!='):
+                    pairs.append((x['lhs'], x['rhs']))
+                if sense and x['op'] in ('>', '!='):
+                    pairs.append((x['rhs'], x['lhs']))
+                for (cv_, bv_) in pairs:
+                    r = fn.sn(bv_)
+                    lv = fn.sn(cv_)
                     if r is not None and r.get('k') == 'member' and r['name'] == 'm_num_threads' and lv is not None and lv.get('k') == 'var':
-                        bound = counts_from_zero_by_one(fn, lv['d'])
+                        bound = bound or counts_from_zero_by_one(fn, lv['d'])
             ok = ok and bound
             # pushed value is the stop wrapper: constructed from function_wrapper(int)
             stop = False
